@@ -8,6 +8,11 @@ _CMP = ("            if actual_chunk != writing_chunk:\n"
         "                    \"Chunk {}-{} doesn't match already written data.\".format(chunk_start, chunk_stop)\n"
         "                )\n")
 
+_ABORT_RMDIR = "            os.rmdir(parentdir)\n"
+_DISC = "    def disconnected(self):\n        if not self.closed:\n            self.abort()\n"
+_HELPER_BOTH = ("    def _remove_incoming_dirs(self):\n        bucketdir = os.path.dirname(self.incominghome)\n"
+                "        os.rmdir(bucketdir)\n        os.rmdir(os.path.dirname(bucketdir))\n\n")
+
 MUTANTS = [
     # ---- C22.1 conflicting writes
     M("conflict-compare-deleted", IMM, _CMP, "", "C22.1"),
@@ -234,6 +239,49 @@ MUTANTS = [
     M("benign-guard-form", IMM,
       "        if self._max_size is not None and offset+length > self._max_size:",
       "        if self._max_size is not None and not (self._max_size >= length + offset):", None),
+    # ---- C22.8 directory tidying through a helper
+    # (seeded C22-F) the helper removes bucket and prefix directory; abort calls it outside a try
+    M("abort-tidies-through-raising-helper", IMM, _ABORT_RMDIR, "            self._remove_incoming_dirs()\n", "C22.8",
+      edits=[(IMM, _DISC, _HELPER_BOTH + _DISC)]),
+    # the same through a module-level function that is handed the path
+    M("abort-tidies-through-module-function", IMM, _ABORT_RMDIR, "            _tidy_incoming(self.incominghome)\n", "C22.8",
+      edits=[(IMM, "@implementer(RIBucketWriter)\nclass FoolscapBucketWriter",
+              "def _tidy_incoming(incominghome):\n    bucketdir = os.path.dirname(incominghome)\n    os.rmdir(bucketdir)\n"
+              "    os.rmdir(os.path.dirname(bucketdir))\n\n\n@implementer(RIBucketWriter)\nclass FoolscapBucketWriter")]),
+    # close: the helper is called before the try instead of inside it
+    M("close-helper-outside-try", IMM,
+      "        fileutil.rename(self.incominghome, self.finalhome)\n        try:\n",
+      "        fileutil.rename(self.incominghome, self.finalhome)\n        self._remove_incoming_dirs()\n        try:\n", "C22.8",
+      edits=[(IMM, _DISC, _HELPER_BOTH + _DISC)]),
+    # the helper catches the error only to log and re-raise it
+    M("abort-helper-reraises", IMM, _ABORT_RMDIR, "            self._remove_incoming_dirs()\n", "C22.8",
+      edits=[(IMM, _DISC,
+              "    def _remove_incoming_dirs(self):\n        bucketdir = os.path.dirname(self.incominghome)\n        try:\n"
+              "            os.rmdir(bucketdir)\n            os.rmdir(os.path.dirname(bucketdir))\n        except EnvironmentError:\n"
+              "            log.msg(\"could not tidy %s\" % bucketdir)\n            raise\n\n" + _DISC)]),
+    # os.removedirs fails just like os.rmdir when the leaf directory still has a sibling share
+    M("abort-removedirs-unguarded", IMM, "        if not os.listdir(parentdir):\n            os.rmdir(parentdir)\n",
+      "        os.removedirs(parentdir)\n", "C22.8"),
+    M("benign-abort-helper-swallows", IMM, _ABORT_RMDIR, "            self._remove_incoming_dirs()\n", None,
+      edits=[(IMM, _DISC,
+              "    def _remove_incoming_dirs(self):\n        bucketdir = os.path.dirname(self.incominghome)\n        try:\n"
+              "            os.rmdir(bucketdir)\n            os.rmdir(os.path.dirname(bucketdir))\n        except EnvironmentError:\n"
+              "            pass\n\n" + _DISC)]),
+    M("benign-abort-helper-call-in-try", IMM, _ABORT_RMDIR,
+      "            try:\n                self._remove_incoming_dirs()\n            except OSError:\n                pass\n", None,
+      edits=[(IMM, _DISC, _HELPER_BOTH + _DISC)]),
+    # the helper removes only the bucket directory, which abort has just seen empty
+    M("benign-abort-helper-bucketdir-only", IMM, _ABORT_RMDIR, "            self._remove_bucket_dir()\n", None,
+      edits=[(IMM, _DISC, "    def _remove_bucket_dir(self):\n        os.rmdir(os.path.dirname(self.incominghome))\n\n" + _DISC)]),
+    # the helper does its own emptiness test
+    M("benign-abort-helper-tests-empty", IMM, "        if not os.listdir(parentdir):\n            os.rmdir(parentdir)\n",
+      "        self._remove_bucket_dir_if_empty()\n", None,
+      edits=[(IMM, _DISC, "    def _remove_bucket_dir_if_empty(self):\n        bucketdir = os.path.dirname(self.incominghome)\n"
+              "        if not os.listdir(bucketdir):\n            os.rmdir(bucketdir)\n\n" + _DISC)]),
+    M("benign-close-through-helper-in-try", IMM,
+      "            os.rmdir(os.path.dirname(self.incominghome))\n            # we also delete the grandparent",
+      "            self._remove_incoming_dirs()\n            # we also delete the grandparent", None,
+      edits=[(IMM, _DISC, _HELPER_BOTH + _DISC)]),
     # ---- vanished anchor
     M("vanish-abort", IMM, "    def abort(self):", "    def abort_upload(self):", "ANALYSIS-ERROR"),
 ]
